@@ -104,6 +104,10 @@ struct Universe {
     /// three distinct indices into `fixtures::EXCHANGES`
     exchanges: [usize; 3],
     instruments: Vec<InstSpec>,
+    /// exchange slot (0..3) that is tracked for market data only: it has no execution link (`None` entry of the
+    /// link table) and, consequently, never any order or position of the engine's
+    #[serde(default)]
+    data_only: Option<usize>,
 }
 
 fn make_instrument(exchange: ExchangeId, spec: &InstSpec) -> Instrument<ExchangeId, Asset> {
@@ -135,6 +139,8 @@ struct Table {
     ex_id: Vec<ExchangeId>,
     ul_of: Vec<(usize, usize)>,
     spec_of: Vec<InstSpec>,
+    /// engine exchange index of the market-data-only exchange, if any
+    data_only_ex: Option<usize>,
 }
 
 fn table(u: &Universe) -> Result<Table, String> {
@@ -170,7 +176,8 @@ fn table(u: &Universe) -> Result<Table, String> {
     if ex_of.iter().any(|e| *e == usize::MAX) {
         return Err("instrument index not covered by the universe".into());
     }
-    Ok(Table { n, n_ex: ins.exchanges().len(), n_assets: ins.assets().len(), ins, ex_of, ex_id, ul_of, spec_of })
+    let data_only_ex = u.data_only.and_then(|slot| (0..n).find(|i| spec_of[*i].ex % 3 == slot % 3).map(|i| ex_of[i]));
+    Ok(Table { n, n_ex: ins.exchanges().len(), n_assets: ins.assets().len(), ins, ex_of, ex_id, ul_of, spec_of, data_only_ex })
 }
 
 // ---- set-up events -----------------------------------------------------------------------------
@@ -278,7 +285,7 @@ fn engine_over(tb: &Table, state: St, links: &[RecTx]) -> Eng {
     Engine::new(
         TestClock::new(fixtures::t0()),
         state,
-        MultiExchangeTxMap::from_iter(tb.ins.exchanges().iter().zip(links.iter()).map(|(e, tx)| (e.value, Some(tx.clone())))),
+        MultiExchangeTxMap::from_iter(tb.ins.exchanges().iter().zip(links.iter()).map(|(e, tx)| (e.value, if Some(e.key.index()) == tb.data_only_ex { None } else { Some(tx.clone()) }))),
         DefaultStrategy::default(),
         DefaultRiskManager::default(),
     )
@@ -877,7 +884,7 @@ fn gen_universe(rng: &mut Rng, class: Class) -> Universe {
             }
         }
     }
-    Universe { exchanges, instruments }
+    Universe { exchanges, instruments, data_only: if rng.chance(1, 3) { Some(rng.usize_below(3)) } else { None } }
 }
 
 fn qty(rng: &mut Rng) -> Decimal {
@@ -897,6 +904,9 @@ fn gen_setup(rng: &mut Rng, tb: &Table) -> Vec<Ev> {
     for i in 0..tb.n {
         if rng.chance(1, 12) {
             continue; // untouched instrument
+        }
+        if Some(tb.ex_of[i]) == tb.data_only_ex {
+            continue; // market-data-only exchange: no link, so no orders and no positions of ours
         }
         let mut ord = 0u32;
         // ---- orders
@@ -1079,6 +1089,16 @@ fn gen_filters(rng: &mut Rng, tb: &Table, exhaustive: bool, sample: usize) -> Ve
     }
     if rng.bool() {
         fs.push(FilterSpec::Instruments(if rng.bool() { vec![tb.n + rng.usize_below(5)] } else { vec![rng.usize_below(tb.n), tb.n + 2] }));
+    }
+    // a filter is a plain list: naming a member twice selects it once (a subset is a set)
+    {
+        let i = rng.usize_below(tb.n);
+        let j = rng.usize_below(tb.n);
+        fs.push(FilterSpec::Instruments(vec![i, j, i]));
+        let e = rng.usize_below(tb.n_ex);
+        fs.push(FilterSpec::Exchanges(vec![e, e]));
+        let u = *rng.pick(&uls);
+        fs.push(FilterSpec::Underlyings(vec![u, *rng.pick(&uls), u]));
     }
     fs
 }
